@@ -17,9 +17,11 @@ text = f"""### 10.6 Seeded changes and the checks that catch them
 
 Fresh sub-agents, each given only the text of one property and a scratch worktree of /repo, produced source changes that break
 that property while the code still compiles and the pinned suite still passes (confirmed for every kept change with
-`tools/baseline_off.py`: 59/59). Three rounds: round 1 (`Cxx-n`) asked for realistic slips in the anchored code; round 2
+`tools/baseline_off.py`: 59/59). Four rounds: round 1 (`Cxx-n`) asked for realistic slips in the anchored code; round 2
 (`Cxxr2-n`) for subtler ones in helpers, error paths, caches, concurrency, each needing a specific input or schedule; round 3
-(`Cxxr3-n`) for changes OUTSIDE the functions the property anchors in (actors, shared crate, type definitions, start-up wiring).
+(`Cxxr3-n`) for changes OUTSIDE the functions the property anchors in (actors, shared crate, type definitions, start-up wiring);
+round 4 (`Cxxr4-n`) for faults that depend on HISTORY or ENVIRONMENT (an earlier request on the same connection, an earlier
+failure or retry, a restart, a file left by an earlier run, a configuration other than the default, a sentinel value).
 A last group (`harmless-Hn-m`) are behaviour-preserving refactorings on which every check has to stay quiet. Every change is kept
 under `seeded/<name>/` (`patch.diff`, the agent's `demo.md`, `meta.json`, and `result.json` written by `tools/seed_eval.py`, which
 applies the patch to /repo, runs the named checks and undoes it).
@@ -54,6 +56,34 @@ Changes a check missed when it was first run against them, and what was added so
   `finished_has_empty_text`), the file operations on `status.tag` (rename only), and queries whose "latched" input comes from the real key keeper.
 * C18r2-1, C18r3-1: events whose rendering (not their text) reaches 64 KiB; the event threads may start once per process.
 * C12r3-2 (key document written to the system temp directory): the process gets its own `TMPDIR`, which is searched too.
+* C15r3-2 (a 10 s budget around the relay that also covers the upload): a host that drains a 16 MiB upload for 13 s (64 and 100 MiB in
+  the thorough tier); C06r3-1 (cgroup2 mount lookup returns the last mount): the real lookup against stand-in `findmnt` programs and
+  the attach-point theorems; C06r3-2 (hand-over map a plain hash): 260 leaked entries, the bounded-map model and facts about the
+  declared map kinds; C20r3-1 (the two notification keys collide): the two streams are fed under the key constants of the code.
+* Round 4, kept-alive connections: C01r4-1 / C11r4-1 (verdict memoised by path), C02r4-1 (rules cached per connection), C04r4-1 /
+  C10r4-1 (key cached per connection), C14r4-1 / C15r4-1 (limit class fixed by the first request), C15r4-2 (prefix of a refused body
+  sent with the next one): `Runner.run_session` — several requests on ONE connection, each under its own environment: the same path
+  with query strings the rules tell apart, the rule set and the key replaced in between, uploads and ordinary requests in turn,
+  requests after a refused one (theorems `answer_depends_on_environment_in_force`, `kept_connection_sees_current_environment`).
+* C04r4-2 / C05r4-2 (a new reconnect-and-resend path that forgets to sign): a request that follows on a client connection after
+  the host dropped the upstream one; if it reaches the host at all it is judged like any relayed request.
+* C01r4-2 (record consumed only when the host connect succeeds): C01's port re-use after a connection to an unreachable host.
+* C03r4-2 (uid 999 treated as elevated), C03r3-2: every user id the generator knows (system accounts, 999, nobody, 2^31) not
+  elevated on both root-only endpoints; a direct connection after an elevated one on the same source port.
+* C06r4-1 (an existing hand-over entry is not overwritten): one thread connecting several times in a row — which also exposed F12
+  on the unchanged tree (§10.4); C06r4-2 (policy de-duplication keyed by the address without the port): the policy and skip maps
+  are now real kernel maps kept through the agent's own `BpfObject` and read back.
+* C09r4-2 (an existing key file is never rewritten): scripted histories in which the host hands out a guid again with another
+  value, and in which a damaged file of an earlier run lies under the guid handed out.
+* C10r4-2 (retry after 401/403 re-reads the key but keeps the id): rotations placed while the host refuses the agent's own requests.
+* C13r4-1 (byte-offset slice in the "queue is full" path of `write_event`): bursts that overflow the event queue with multi-byte text.
+* C16r4-1 (temp file in the system temp directory, copy fallback): the `status.tag` syscall stage is repeated with the process's temp
+  directory on another filesystem; C16r4-2 (fast path in `key_latched` after a deadline): queries that name an instant shortly after
+  the last deadline, asked after further reports.
+* C17r4-2 (backup skipped when the backup already holds that agent version), C17r3-1/-2: initial states with a kept backup of the
+  installed version, and the property's sentences about `install` and `uninstall` in package mode as oracles of their own.
+* C18r4-1 (file kept after a batch was given up): thorough tier, a two-batch file whose second batch fails all five attempts (75 s).
+* C11r3-2 / C11r4-2 (process details cached per pid): a granted program that `exec`s a program the rules do not grant.
 
 {head}""" + "\n".join(breaking) + "\n\nBehaviour-preserving changes:\n\n" + head.replace("caught by", "checks run") + "\n".join(harmless) + "\n"
 p = os.path.join(VERIF, "DESIGN.md")
